@@ -207,3 +207,149 @@ T("C06-t-lhs-split", "C06", LHS, '''        if (gsc_value := tree._gsc(tree)) or
             self._active = False
             self.log("LHS Deme finished due to LSC")
 ''', "LHS: separate GSC / LSC branches")
+
+# ----------------------------------------------------------------------------- C16
+_CNT_EVAL = '''    def evaluate(self, phenome, *args, **kwargs):
+        ret_val = self._inner.evaluate(phenome, *args, **kwargs)
+        self._n_evals += 1
+        return ret_val
+
+    @property
+    def n_evaluations(self) -> int:
+        return self._n_evals
+
+    def __str__(self) -> str:
+        if isinstance(self._inner, Problem):
+            inner_str = f"Problem({self._inner.__dict__})"
+        else:
+            inner_str = str(self._inner)
+        return f"EvalCountingProblem({inner_str})"
+'''
+M("C16-double-forward", "C16", PROB, _CNT_EVAL, _CNT_EVAL.replace("        ret_val = self._inner.evaluate(phenome, *args, **kwargs)\n", "        ret_val = self._inner.evaluate(phenome, *args, **kwargs)\n        if ret_val != ret_val:\n            ret_val = self._inner.evaluate(phenome, *args, **kwargs)\n"), ["R16.1", "R16.2"], "NaN result re-evaluated without counting")
+M("C16-args-dropped", "C16", PROB, _CNT_EVAL, _CNT_EVAL.replace("self._inner.evaluate(phenome, *args, **kwargs)", "self._inner.evaluate(phenome, *args)"), ["R16.1"], "kwargs not forwarded")
+M("C16-result-changed", "C16", PROB, '''        self._durations.append(end_time - start_time)
+        return ret_val
+''', '''        self._durations.append(end_time - start_time)
+        return float(ret_val)
+''', ["R16.1"], "stats wrapper converts the result")
+M("C16-missing-increment", "C16", PROB, '''        end_time = time.perf_counter()
+        self._n_evals += 1
+''', '''        end_time = time.perf_counter()
+        if end_time > start_time:
+            self._n_evals += 1
+''', ["R16.2"], "stats wrapper skips the count for instantaneous evaluations")
+M("C16-cutoff-gt", "C16", PROB, "if self._n_evals >= self._eval_cutoff:", "if self._n_evals > self._eval_cutoff:", ["R16.3"], "cutoff off by one")
+M("C16-sentinel-swapped", "C16", PROB, "return -np.inf if self._inner.maximize else np.inf", "return np.inf if self._inner.maximize else -np.inf", ["R16.3"], "refusal returns the best value")
+M("C16-eta-zero-based", "C16", PROB, "            self.ETA = self._n_evals\n", "            self.ETA = self._n_evals - 1\n", ["R16.4"], "0-based ETA")
+M("C16-eta-overwritten", "C16", PROB, "if abs(fitness - self._global_optima) <= self.precision and not self.hit_precision:", "if abs(fitness - self._global_optima) <= self.precision:", ["R16.4"], "ETA overwritten by later hits")
+M("C16-flag-unset", "C16", PROB, '''            self.hit_precision = True
+        return fitness
+''', '''            self.hit_precision = True
+        elif abs(fitness - self._global_optima) > 10 * self.precision:
+            self.hit_precision = False
+        return fitness
+''', ["R16.4"], "flag un-set when a later evaluation is far off")
+M("C16-eta-before-forward", "C16", PROB, '''        fitness = super().evaluate(phenome, *args, **kwargs)
+        if abs(fitness - self._global_optima) <= self.precision and not self.hit_precision:
+            self.ETA = self._n_evals
+''', '''        eta = self._n_evals
+        fitness = super().evaluate(phenome, *args, **kwargs)
+        if abs(fitness - self._global_optima) <= self.precision and not self.hit_precision:
+            self.ETA = eta
+''', ["R16.4"], "ETA taken before the evaluation was counted")
+M("C16-override-maximize", "C16", PROB, '''    def __init__(self, decorated_problem: Problem, eval_cutoff: int):
+        super().__init__(decorated_problem)
+        self._eval_cutoff = eval_cutoff
+''', '''    def __init__(self, decorated_problem: Problem, eval_cutoff: int):
+        super().__init__(decorated_problem)
+        self._eval_cutoff = eval_cutoff
+
+    @property
+    def maximize(self) -> bool:
+        return False
+''', ["R16.5"], "a wrapper overrides the direction")
+M("C16-pinned-no-equivalent", "C16", PROB, '''    def equivalent(self, first_fitness, second_fitness):
+        return self._inner.equivalent(first_fitness, second_fitness)
+
+    @property
+    def bounds(self) -> np.ndarray:
+        return self._inner.bounds
+''', '''    @property
+    def bounds(self) -> np.ndarray:
+        return self._inner.bounds
+''', ["R16.5"], "pinned defect: equivalent not delegated")
+M("C16-worse-than-swapped", "C16", PROB, "return self._inner.worse_than(first_fitness, second_fitness)", "return self._inner.worse_than(second_fitness, first_fitness)", ["R16.5"], "comparison arguments swapped by the wrapper")
+M("C16-gsc-not-sticky", "C16", GSC, "        return self.problem.hit_precision\n", "        return abs(tree.best_individual.fitness - self.problem._global_optima) <= self.problem.precision\n", ["R16.7"], "precision GSC recomputed instead of the sticky flag")
+M("C16-inner-rebound", "C16", PROB, '''        if self._cache and (cached_value := self._cache.get(genome)):
+            return cached_value
+''', '''        if self._cache and (cached_value := self._cache.get(genome)):
+            return cached_value
+        if isinstance(genome, ProblemWrapper):
+            genome._inner = self
+''', ["R16.6"], "_inner rebound outside a constructor")
+T("C16-t-direct-return", "C16", PROB, '''    def evaluate(self, phenome, *args, **kwargs):
+        ret_val = self._inner.evaluate(phenome, *args, **kwargs)
+        return ret_val
+
+    def worse_than''', '''    def evaluate(self, phenome, *args, **kwargs):
+        return self._inner.evaluate(phenome, *args, **kwargs)
+
+    def worse_than''', "direct return of the forwarded call")
+T("C16-t-cutoff-inverted", "C16", PROB, '''        if self._n_evals >= self._eval_cutoff:
+            return -np.inf if self._inner.maximize else np.inf
+        return super().evaluate(phenome, *args, **kwargs)
+''', '''        if self._n_evals < self._eval_cutoff:
+            return super().evaluate(phenome, *args, **kwargs)
+        return -np.inf if self._inner.maximize else np.inf
+''', "guard written the other way round")
+T("C16-t-precision-nested", "C16", PROB, '''        if abs(fitness - self._global_optima) <= self.precision and not self.hit_precision:
+            self.ETA = self._n_evals
+            self.hit_precision = True
+''', '''        if not self.hit_precision:
+            if abs(fitness - self._global_optima) <= self.precision:
+                self.hit_precision = True
+                self.ETA = self._n_evals
+''', "nested ifs, stores reordered")
+
+# ----------------------------------------------------------------------------- C03
+M("C03-pinned-nfev", "C03", HMS, "        nfev=wrapped_function_problem.n_evaluations if maxfun else hms_tree.n_evaluations,\n", "        nfev=hms_tree.n_evaluations,\n", ["R03.4"], "pinned defect: nfev = sum of deme request counters")
+M("C03-cutoff-gt", "C03", PROB, "if self._n_evals >= self._eval_cutoff:", "if self._n_evals > self._eval_cutoff:", ["R03.1"], "budget exceeded by one")
+M("C03-count-before-refuse", "C03", PROB, '''        if self._n_evals >= self._eval_cutoff:
+            return -np.inf if self._inner.maximize else np.inf
+''', '''        if self._n_evals >= self._eval_cutoff:
+            self._n_evals += 1
+            return -np.inf if self._inner.maximize else np.inf
+''', ["R03.1"], "refused requests are counted")
+M("C03-total-active-only", "C03", TREE, "        return sum(deme.n_evaluations for _, deme in self.all_demes)", "        return sum(deme.n_evaluations for _, deme in self.active_demes)", ["R03.3"], "tree total forgets stopped demes")
+M("C03-seed-uncounted", "C03", DE, "            seed_ind = Individual(x0, problem=self._problem)", "            seed_ind = Individual(x0, problem=self._config.problem)", ["R03.2"], "seed individual evaluated through the raw problem")
+M("C03-cma-uncounted", "C03", CMA, "            offspring = [Individual(solution, problem=self._problem) for solution in self._cma_es.ask()]", "            offspring = [Individual(solution, problem=self.config.problem) for solution in self._cma_es.ask()]", ["R03.2"], "CMA offspring evaluated through the raw problem")
+M("C03-leaf-unwrapped", "C03", HMS, '''            generations=get_default_generations(bounds, tree_level=1),
+            problem=wrapped_function_problem,''', '''            generations=get_default_generations(bounds, tree_level=1),
+            problem=function_problem,''', ["R03.5", "R03.4"], "leaf level bypasses the cutoff")
+M("C03-local-adds-nit", "C03", LOC, "        self._n_evals += result.nfev\n", "        self._n_evals += result.nfev + result.nit\n", ["R03.3"], "local deme over-counts")
+M("C03-local-fun-twice", "C03", LOC, '''        def fun(x):
+            return self._sign * self._problem.evaluate(x)
+''', '''        def fun(x):
+            value = self._problem.evaluate(x)
+            if value != value:
+                value = self._problem.evaluate(x)
+            return self._sign * value
+''', ["R03.2", "R03.3"], "local objective may evaluate twice per scipy call")
+M("C03-gsc-root-only", "C03", GSC, "        return tree.n_evaluations >= self.limit", "        return tree.root.n_evaluations >= self.limit", ["R03.6"], "eval-limit GSC reads the root's counter only")
+M("C03-level-sum-filtered", "C03", TREE, 'sum(deme.n_evaluations for deme in level_demes)', 'sum(deme.n_evaluations for deme in level_demes if deme.is_active)', ["R03.3"], "per-level total over active demes only")
+M("C03-direct-objective", "C03", POP, "        fitness_values = [self.problem.evaluate(genome, *args, **kwargs) for genome in self.genomes[nan_mask]]", "        fitness_values = [self.problem.evaluate(genome, *args, **kwargs) if len(self.genomes) > 3 else self.problem._inner.fitness_function(genome) for genome in self.genomes[nan_mask]]", ["R03.7"], "objective invoked directly for tiny populations")
+M("C03-gsc-wrong-limit", "C03", HMS, "SingularProblemEvalLimitReached(maxfun) if maxfun is not None else MetaepochLimit(maxiter)", "SingularProblemEvalLimitReached(2 * maxfun) if maxfun is not None else MetaepochLimit(maxiter)", ["R03.5"], "GSC built from a different limit")
+T("C03-t-nfev-local", "C03", HMS, '''    return OptimizeResult(
+        x=hms_tree.best_individual.genome,
+        # Once the cutoff refuses evaluations the demes' counters run ahead of the real number of calls.
+        nfev=wrapped_function_problem.n_evaluations if maxfun else hms_tree.n_evaluations,
+''', '''    n_calls = wrapped_function_problem.n_evaluations if maxfun else hms_tree.n_evaluations
+    return OptimizeResult(
+        x=hms_tree.best_individual.genome,
+        nfev=n_calls,
+''', "nfev through a local")
+T("C03-t-total-levels", "C03", TREE, "        return sum(deme.n_evaluations for _, deme in self.all_demes)", "        return sum(deme.n_evaluations for level in self._levels for deme in level)", "tree total over levels directly")
+T("C03-t-local-lambda", "C03", LOC, '''        def fun(x):
+            return self._sign * self._problem.evaluate(x)
+''', '''        fun = lambda x: self._sign * self._problem.evaluate(x)  # noqa: E731
+''', "objective as a lambda")
